@@ -64,16 +64,60 @@ var (
 var keysQuick = [][]byte{{0x12}, {0x12, 0x34}, {0x12, 0x35}, {0x13}}
 var keysThorough = [][]byte{{0x12}, {0x12, 0x34}, {0x12, 0x35}, {0x13}, {0x12, 0x34, 0x56}, k31, k32a, k32b}
 
-// Values: 1 B, 29 B (a leaf with a one-byte hex-prefix key is then exactly 32 bytes
-// of RLP - the embed/hash boundary), 31 B, 32 B, 40 B; index 0 is the empty value
-// (Update with it means delete).
-var values = [][]byte{
-	{},
-	{0x01},
-	rep(0xa2, 29),
-	rep(0xa3, 31),
-	rep(0xa4, 32),
-	rep(0xa5, 40),
+// Values.  All base values are leading parts of ONE byte stream, so that every two of
+// them are in a strict prefix / extension relation: 1 B, 29 B (a leaf with a one-byte
+// hex-prefix key is then exactly 32 bytes of RLP - the embed/hash boundary), 31 B, 32 B,
+// 40 B; index 0 is the empty value (Update with it means delete).  These nBase values
+// form the alphabet of the BFS phases.
+//
+// Behind them follow the relational variants used by the overwrite-pair phases: the
+// 33 B base, and for every base value a strict prefix (base minus last byte), a strict
+// suffix (base minus first byte), the same length with the last / the first byte
+// changed, and the base plus a trailing 0x00 (duplicates by content are dropped).
+const nBase = 6
+
+var (
+	values  [][]byte // all values; values[:nBase] is the BFS alphabet
+	allVals = []int{0, 1, 2, 3, 4, 5}
+	relVals []int // every index of values
+)
+
+func init() {
+	stream := make([]byte, 64)
+	stream[0] = 0x01
+	for i := 1; i < len(stream); i++ {
+		stream[i] = byte(0xa0 + i)
+	}
+	values = [][]byte{{}}
+	for _, n := range []int{1, 29, 31, 32, 40} {
+		values = append(values, stream[:n:n])
+	}
+	seen := map[string]bool{}
+	for _, v := range values {
+		seen[string(v)] = true
+	}
+	add := func(v []byte) {
+		if len(v) > 0 && !seen[string(v)] {
+			seen[string(v)] = true
+			values = append(values, v)
+		}
+	}
+	for _, n := range []int{1, 29, 31, 32, 33, 40} {
+		b := stream[:n:n]
+		add(b)
+		add(cp(b[:n-1]))
+		add(cp(b[1:]))
+		l := cp(b)
+		l[n-1] ^= 0xff
+		add(l)
+		f := cp(b)
+		f[0] ^= 0xff
+		add(f)
+		add(append(cp(b), 0x00))
+	}
+	for i := range values {
+		relVals = append(relVals, i)
+	}
 }
 
 type opKind uint8
@@ -142,13 +186,14 @@ type refInfo struct {
 
 type refCache struct {
 	keys [][]byte
-	tab  []atomic.Pointer[refInfo] // indexed by the content read as a base-6 number
+	tab  []atomic.Pointer[refInfo] // contents over the base values, read as a base-nBase number
+	big  sync.Map                  // contents that use a relational variant: content -> *refInfo
 }
 
 func newRefCache(keys [][]byte) *refCache {
 	n := 1
 	for range keys {
-		n *= len(values)
+		n *= nBase
 	}
 	return &refCache{keys: keys, tab: make([]atomic.Pointer[refInfo], n)}
 }
@@ -156,10 +201,18 @@ func newRefCache(keys [][]byte) *refCache {
 func (rc *refCache) get(ct content) *refInfo {
 	idx := 0
 	for k := len(rc.keys) - 1; k >= 0; k-- {
-		idx = idx*len(values) + int(ct[k])
+		if ct[k] >= nBase {
+			idx = -1
+			break
+		}
+		idx = idx*nBase + int(ct[k])
 	}
-	if ri := rc.tab[idx].Load(); ri != nil {
-		return ri
+	if idx >= 0 {
+		if ri := rc.tab[idx].Load(); ri != nil {
+			return ri
+		}
+	} else if v, ok := rc.big.Load(ct); ok {
+		return v.(*refInfo)
 	}
 	m := map[string][]byte{}
 	for k, v := range ct {
@@ -178,7 +231,11 @@ func (rc *refCache) get(ct content) *refInfo {
 			ri.embedded = true
 		}
 	}
-	rc.tab[idx].Store(ri)
+	if idx >= 0 {
+		rc.tab[idx].Store(ri)
+	} else {
+		rc.big.Store(ct, ri)
+	}
 	return ri
 }
 
@@ -766,8 +823,6 @@ type phase struct {
 	depth int
 }
 
-var allVals = []int{0, 1, 2, 3, 4, 5}
-
 // seedHist: every key of the universe written with the given value indices (cyclic),
 // followed by a representation suffix.
 func seedHist(a *alphabet, vals []int, suffix ...opKind) []byte {
@@ -863,6 +918,7 @@ func run(c *fw.Ctx) {
 	vr := &violRec{sigs: map[string]*sigRec{}, n: map[string]int64{}}
 	rcs := map[*alphabet]*refCache{}
 	var bounds []string
+	capped := false
 	for _, ph := range phases(c.Thorough()) {
 		rc := rcs[ph.a]
 		if rc == nil {
@@ -872,9 +928,22 @@ func run(c *fw.Ctx) {
 		done := bfs(c, ph, rc, vr, ngo)
 		bounds = append(bounds, fmt.Sprintf("%s: %d ops, seed length %d, depth %d of %d complete", ph.name, len(ph.a.ops), len(ph.seed), done, ph.depth))
 		if done < ph.depth {
+			capped = true
 			break
 		}
 	}
+	if !capped {
+		for _, pp := range pairPhases(c.Thorough()) {
+			rc := newRefCache(pp.a.keys)
+			rcs[pp.a] = rc
+			n, ok := overwritePairs(c, pp, rc, vr, ngo)
+			bounds = append(bounds, fmt.Sprintf("%s: %d values, %d histories, complete=%v", pp.name, len(relVals), n, ok))
+			if !ok {
+				break
+			}
+		}
+	}
+	c.Note("value_alphabet_sizes", valueSizes())
 	c.Note("bounds", bounds)
 	c.Note("phase_samples", allSamples)
 	vr.report(c)
@@ -886,7 +955,155 @@ func run(c *fw.Ctx) {
 				c.Outcome(fmt.Sprintf("shape:branches=%d,shorts=%d,embedded=%v", ri.branches, len(ri.shorts), ri.embedded))
 			}
 		}
+		rc.big.Range(func(_, v interface{}) bool {
+			ri := v.(*refInfo)
+			c.Outcome(fmt.Sprintf("shape:branches=%d,shorts=%d,embedded=%v", ri.branches, len(ri.shorts), ri.embedded))
+			return true
+		})
 	}
+}
+
+// ---------------------------------------------------------------- overwrite pairs
+//
+// Bounded-exhaustive enumeration of overwrites old -> new of ONE key over ALL ordered
+// pairs of the relational value alphabet (prefix / extension / suffix / one byte
+// changed / trailing zero / empty), for every key of the universe (leaf keys and keys
+// that are a strict prefix of other keys, i.e. values in a branch slot), in every
+// context {other keys absent, present with 1 B values, present with 32 B values},
+// with every representation change between the two writes {none, hash, commit to
+// memory once / twice (unloaded to hash nodes), commit to disk + reopen, commit to disk
+// twice} and optionally commit to disk + reopen after the overwrite.  Every history
+// and every setup prefix runs on a fresh real instance with the common oracle.
+
+type pairPhase struct {
+	name string
+	a    *alphabet
+}
+
+func pairPhases(thorough bool) []pairPhase {
+	pp := []pairPhase{{"overwrite-pairs/4keys", newAlphabet(keysQuick, relVals)}}
+	if thorough {
+		pp = append(pp, pairPhase{"overwrite-pairs/deep-keys", newAlphabet([][]byte{{0x12, 0x34, 0x56}, k31, k32a, k32b}, relVals)})
+	}
+	return pp
+}
+
+func valueSizes() []int {
+	var n []int
+	for _, v := range values {
+		n = append(n, len(v))
+	}
+	return n
+}
+
+func (a *alphabet) find(want op) byte {
+	for i, o := range a.ops {
+		if o == want {
+			return byte(i)
+		}
+	}
+	panic("operation outside the alphabet")
+}
+
+func overwritePairs(c *fw.Ctx, pp pairPhase, rc *refCache, vr *violRec, ngo int) (int64, bool) {
+	a := pp.a
+	if len(a.ops) > 256 {
+		panic("alphabet does not fit a byte")
+	}
+	kinds := func(ks ...opKind) []byte {
+		var h []byte
+		for _, kd := range ks {
+			h = append(h, a.find(op{Kind: kd}))
+		}
+		return h
+	}
+	reps := [][]byte{nil, kinds(opHash), kinds(opCommitMem), kinds(opCommitMem, opCommitMem),
+		kinds(opCommitDisk, opReopen), kinds(opCommitDisk, opCommitDisk)}
+	posts := [][]byte{nil, kinds(opCommitDisk, opReopen)}
+	// setup prefixes: context, first write, representation change
+	type setup struct {
+		hist []byte
+		k    int
+		old  int
+	}
+	var setups []setup
+	for k := range a.keys {
+		for _, other := range []int{0, 1, 4} {
+			var ctx []byte
+			if other != 0 {
+				for k2 := range a.keys {
+					if k2 != k {
+						ctx = append(ctx, a.find(op{opUpdate, k2, other}))
+					}
+				}
+			}
+			for _, old := range relVals[1:] {
+				for _, r := range reps {
+					h := append(append(cp(ctx), a.find(op{opUpdate, k, old})), r...)
+					setups = append(setups, setup{h, k, old})
+				}
+			}
+		}
+	}
+	var idx int64 = -1
+	var nHist, nNontriv, nViol int64
+	var expired int32
+	var wg sync.WaitGroup
+	run1 := func(h []byte) {
+		r := execute(a, rc, h, false)
+		atomic.AddInt64(&nHist, 1)
+		if r.ct.live() >= 2 && r.mask != 0 {
+			atomic.AddInt64(&nNontriv, 1)
+		}
+		if len(r.viols) > 0 {
+			atomic.AddInt64(&nViol, 1)
+			vr.consider(a, rc, h, r.viols)
+		}
+	}
+	for g := 0; g < ngo; g++ {
+		wg.Add(1)
+		go func() {
+			defer wg.Done()
+			for {
+				i := atomic.AddInt64(&idx, 1)
+				if i >= int64(len(setups)) {
+					return
+				}
+				if !c.Mine(i) {
+					continue
+				}
+				if i%16 == 0 && c.Expired() {
+					atomic.StoreInt32(&expired, 1)
+				}
+				if atomic.LoadInt32(&expired) != 0 {
+					return
+				}
+				su := setups[i]
+				run1(su.hist)
+				for _, nw := range relVals {
+					if nw == su.old {
+						continue
+					}
+					for _, post := range posts {
+						h := append(append(cp(su.hist), a.find(op{opUpdate, su.k, nw})), post...)
+						run1(h)
+					}
+				}
+			}
+		}()
+	}
+	wg.Wait()
+	c.Eval(nHist)
+	c.Trace(nHist)
+	c.NontrivialN(nNontriv)
+	c.Count("violating_histories", nViol)
+	c.Count("overwrite_pair_histories", nHist)
+	progress("%s: %d setups, %d histories, expired=%v", pp.name, len(setups), nHist, expired != 0)
+	if expired != 0 {
+		c.Cap("time cap in phase " + pp.name)
+		return nHist, false
+	}
+	return nHist, true
 }
 
 // progress appends a line to progress.log in the worker's scratch directory (developer aid).
@@ -1083,7 +1300,17 @@ func replay(c *fw.Ctx, raw json.RawMessage) {
 		b, _ := hex.DecodeString(s)
 		keys = append(keys, b)
 	}
-	a := newAlphabet(keys, []int{0, 1, 2, 3, 4, 5})
+	// alphabet of the replay: the universe of the case and the values it uses
+	vals := []int{0}
+	for vi := 1; vi < len(values); vi++ {
+		for _, co := range k.Ops {
+			if co.Op == "update" && co.Val == hex.EncodeToString(values[vi]) {
+				vals = append(vals, vi)
+				break
+			}
+		}
+	}
+	a := newAlphabet(keys, vals)
 	var hist []byte
 	for _, co := range k.Ops {
 		found := -1
@@ -1122,8 +1349,10 @@ func main() {
 		ID: "C02", Level: "model_checking",
 		Rule: "explicit-state BFS, per phase over ALL operation histories seed.h with |h| <= depth (seed = empty history or a fixed history that fills the key universe " +
 			"and leaves it dirty / committed-and-unloaded / reopened; see coverage.bounds) on the real trie (fresh instance + replay per transition); " +
-			"ops: update(k,v) for v in {empty,1,29,31,32,40 B}, delete(k), get(k), hash, commit (trie only), commit+NodeDatabase.Commit, reopen, SetCacheLimit(1), NodeDatabase.Cap(0), full iteration; " +
+			"ops: update(k,v) for v in {empty,1,29,31,32,40 B; all leading parts of one byte stream}, delete(k), get(k), hash, commit (trie only), commit+NodeDatabase.Commit, reopen, SetCacheLimit(1), NodeDatabase.Cap(0), full iteration; " +
 			"states merged on implementation dump (node graph with kinds/keys/dirty/cached-hash/age, NodeDatabase cache, disk keys) + model; " +
+			"plus overwrite-pair phases: every ordered pair old->new of the relational value alphabet (bases 1/29/31/32/33/40 B, each with strict prefix, strict suffix, last byte changed, " +
+			"first byte changed, trailing 0x00, and empty) on every key (leaf and branch-slot keys) x {others absent, 1 B, 32 B} x {none, hash, commitmem, commitmem x2, commitdisk+reopen, commitdisk x2} between the writes x {none, commitdisk+reopen} after; " +
 			"a history is distinct by construction (shortest history of its source state + one op) and non-trivial when its final trie holds >= 2 keys " +
 			"and the history changed the canonical shape by a branch split, a branch collapse or a short-node merge, or produced an embedded (<32 B) node",
 		Assumptions: []string{
